@@ -38,6 +38,8 @@ pub fn exact_integers() -> Vec<BigInt> {
     push(pow2(64));
     push(pow2(127));
     push(pow2(128) + big(1));
+    // beyond the range of doubles (f64::MAX is just below 2^1024)
+    push(pow2(1100) + big(3));
     // a 256-bit value
     let mut x = BigInt::zero();
     for i in 0..32u32 {
